@@ -22,6 +22,7 @@ func init() {
 			"Decided: (D1) patterns/methods are compile-time constants; (D2) every RegisterFunc-typed value in the program originates from home.httpRegister; (D3) every route carries the auth wrapper unless it is in the frozen public table taken from the property statement (login call, mobileconfig, DoH resolver, first-run install routes which must carry preInstall), and only the two /dns-query routes use the unauthenticated method \"\" branch of httpRegister; " +
 			"(D4) in the closure returned by ensure the handler is reached only with the declared method and, for mutating methods, after the content-type check and under controlLock; (D5) in optionalAuth the wrapped handler is reached only when auth is not required, the path is a public resource or optionalAuthThird returned false, and optionalAuthThird returns false only on a positive session/basic-auth/GL-iNet result; (D6) every http.Server handler derives from the one mux. " +
 			"(D8) whoever goes from a session's cookie text to its database record (refresh, expiry, logout) addresses the record with hex.DecodeString of that very text. " +
+			"(D8, cont.) checkSession reports OK only for a token found in the table and unexpired, and moves the expiry forward only after it was found to lie in the future (shared with C12-D4). " +
 			"Not decided: URL normalisation by net/http, credential and cookie value semantics, expiry arithmetic (C12).",
 		RuleText: "Routes are enumerated from SSA call sites resolved by callee (never by name text); wrapper chains by walking the handler argument backwards through calls.",
 		Assumptions: []string{
@@ -250,7 +251,15 @@ func collectRoutes(p *core.Prog, includeNext bool) (routes []route, sites int) {
 				rt.methOK = true
 			}
 			if hV != nil {
-				rt.chain, rt.handler = wrapperChain(hV, 0)
+				// a handler chosen by control flow (`wrapped = a` / `wrapped = b`, then one registration) is as many
+				// registrations as it has alternatives
+				lvs := handlerLeaves(hV)
+				for _, lf := range lvs[1:] {
+					rt2 := rt
+					rt2.chain, rt2.handler = wrapperChain(lf.v, 0)
+					routes = append(routes, rt2)
+				}
+				rt.chain, rt.handler = wrapperChain(lvs[0].v, 0)
 			}
 			routes = append(routes, rt)
 		}
@@ -390,6 +399,7 @@ func runC11(c *Ctx) {
 	c11WrapperShapes(c)
 	c11AuthPredicate(c)
 	sessionKeyForm(c, "C11-D8")
+	sessionValidity(c, "C11-D8")
 }
 
 // c11AuthPredicate: D7 — "once an administrator account exists": the state
@@ -501,34 +511,40 @@ func c11Registrar(c *Ctx) {
 	_ = n
 	sinks := 0
 	for _, call := range core.CallsTo(fn, kMuxHandle, kMuxHandleFunc, kHTTPHandle, kHTTPHandleFunc) {
-		sinks++
 		hIdx := 2
 		if call.Key == kHTTPHandle || call.Key == kHTTPHandleFunc {
 			hIdx = 1
 		}
-		chain, term := wrapperChain(call.Arg(hIdx), 0)
-		pos := p.InstrPos(call.Instr)
-		key := fmt.Sprintf("httpRegister-sink:%v", shortChain(chain))
-		if chainHas(chain, kOptionalAuth, kOptionalAuthH) {
-			ok := chainHas(chain, kEnsure, kEnsureHandler) && chainHas(chain, kPostInstall, kPostInstallH)
-			r.Check(ok, "C11-D3", key, pos, "authenticated branch: postInstall(optionalAuth(..ensure(method, h)))",
-				fmt.Sprintf("authenticated branch of httpRegister lost ensure/postInstall: chain %v", shortChain(chain)))
-			// ensure must receive the method parameter and the handler parameter
-			for _, ec := range core.CallsTo(fn, kEnsure, kEnsureHandler) {
-				okArgs := ec.Arg(0) == methodParam
-				r.Check(okArgs, "C11-D3", "httpRegister-ensure-method", p.InstrPos(ec.Instr), "ensure receives the registrar's method parameter", "ensure is not given the method the route was registered with")
+		for _, lf := range handlerLeaves(call.Arg(hIdx)) {
+			sinks++
+			chain, term := wrapperChain(lf.v, 0)
+			pos := p.InstrPos(call.Instr)
+			key := fmt.Sprintf("httpRegister-sink:%v", shortChain(chain))
+			if chainHas(chain, kOptionalAuth, kOptionalAuthH) {
+				ok := chainHas(chain, kEnsure, kEnsureHandler) && chainHas(chain, kPostInstall, kPostInstallH)
+				r.Check(ok, "C11-D3", key, pos, "authenticated branch: postInstall(optionalAuth(..ensure(method, h)))",
+					fmt.Sprintf("authenticated branch of httpRegister lost ensure/postInstall: chain %v", shortChain(chain)))
+				// ensure must receive the method parameter and the handler parameter
+				for _, ec := range core.CallsTo(fn, kEnsure, kEnsureHandler) {
+					okArgs := ec.Arg(0) == methodParam
+					r.Check(okArgs, "C11-D3", "httpRegister-ensure-method", p.InstrPos(ec.Instr), "ensure receives the registrar's method parameter", "ensure is not given the method the route was registered with")
+				}
+				if term != "param:handler" && !strings.HasPrefix(term, "param:") {
+					r.Fail("C11-D3", "httpRegister-handler", pos, "wrapped value is not the handler parameter: "+term)
+				}
+				continue
 			}
-			if term != "param:handler" && !strings.HasPrefix(term, "param:") {
-				r.Fail("C11-D3", "httpRegister-handler", pos, "wrapped value is not the handler parameter: "+term)
+			// unauthenticated sink: must be guarded by method == "" (for an alternative of a handler chosen by control
+			// flow: the place the alternative comes from)
+			target := ssa.Instruction(call.Instr)
+			if lf.pred != nil {
+				target = lf.pred.Instrs[len(lf.pred.Instrs)-1]
 			}
-			continue
+			off, _ := core.UnguardedSinks(fn, func(in ssa.Instruction) bool { return in == target }, emptyEdges)
+			r.Check(len(off) == 0, "C11-D3", key, pos,
+				"unauthenticated branch is reached only when method == \"\"",
+				"httpRegister registers a handler without the auth wrapper on a path not guarded by method == \"\"")
 		}
-		// unauthenticated sink: must be guarded by method == ""
-		target := call.Instr
-		off, _ := core.UnguardedSinks(fn, func(in ssa.Instruction) bool { return in == target.(ssa.Instruction) }, emptyEdges)
-		r.Check(len(off) == 0, "C11-D3", key, pos,
-			"unauthenticated branch is reached only when method == \"\"",
-			"httpRegister registers a handler without the auth wrapper on a path not guarded by method == \"\"")
 	}
 	r.Check(sinks >= 2, "C11-D3", "floor:httpRegister-sinks", p.FnPos(fn), "both registrar sinks found", "registrar sinks not found in httpRegister")
 }
@@ -1276,4 +1292,27 @@ func isPprofMux(v ssa.Value) bool {
 		}
 	}
 	return true
+}
+
+// handlerLeaf is one alternative of a handler value chosen by control flow;
+// pred is the block the alternative comes from (nil for a value that is not
+// chosen by a phi).
+type handlerLeaf struct {
+	v    ssa.Value
+	pred *ssa.BasicBlock
+}
+
+func handlerLeaves(v ssa.Value) (out []handlerLeaf) {
+	var walk func(x ssa.Value, pred *ssa.BasicBlock, d int)
+	walk = func(x ssa.Value, pred *ssa.BasicBlock, d int) {
+		if ph, ok := x.(*ssa.Phi); ok && d < 4 {
+			for i, e := range ph.Edges {
+				walk(e, ph.Block().Preds[i], d+1)
+			}
+			return
+		}
+		out = append(out, handlerLeaf{x, pred})
+	}
+	walk(v, nil, 0)
+	return out
 }
